@@ -34,14 +34,14 @@ fn main() {
 		// (1) default + small-period configuration: every candle sequence to a depth
 		let base = indicator_configs(Some(name), false);
 		let sys = IndSys::new(&format!("{name}/depth/default+small"), base, ks[..2].to_vec(), ks.clone(), oracle, false);
-		h.go(&sys, &Limits::depth(if thorough { 6 } else { 5 }).wall_secs(600), true);
+		h.go(&sys, &Limits::depth(if thorough { 7 } else { 6 }).wall_secs(600), true);
 		not_exercised.extend(sys.unexercised());
 		// (2) every MA kind in every MA slot and every source, one slot varied at a time
 		let mut kinds = indicator_configs(Some(name), true);
 		kinds.drain(..kinds.len().min(2));
 		if !kinds.is_empty() {
 			let sys = IndSys::new(&format!("{name}/depth/ma-kinds+sources"), kinds, ks[1..2].to_vec(), ks.clone(), oracle, false);
-			h.go(&sys, &Limits::depth(if thorough { 5 } else { 4 }).wall_secs(600), true);
+			h.go(&sys, &Limits::depth(if thorough { 6 } else { 5 }).wall_secs(600), true);
 		}
 		// (3) default configuration: long flat streams with deviations (periods of the default config are 10-50)
 		let sys = IndSys::new(&format!("{name}/deviation/default"), indicator_configs(Some(name), false), vec![ks[1], ks[5]], vec![ks[1], ks[2], ks[3], ks[0], ks[5]], oracle, true);
